@@ -102,6 +102,7 @@ class Run:
         self.hooks = {}  # (kind, id) -> callable run before answering (scripts / faults / gates)
         self.instances = {}
         self.errinst = {}
+        self.exceptions = []
 
     def tok(self, label, factory=None):
         t = self.tokens.get(label)
